@@ -39,8 +39,10 @@ def _plan(tier, seed):
 def _condense(results, counts, info):
     """Thousands of events may fail the same obligation (one defect, many
     circuits).  Count them all, but hand only the smallest witness of every
-    obligation per chunk to the framework (it re-reads the chunk per failure)."""
-    for r in results:
+    obligation per driver to the framework (it re-reads the chunk file for
+    every failure it is given)."""
+    best = {}          # (obligation, driver prefix) -> (size, result index, event index, property)
+    for ri, r in enumerate(results):
         if r["tool_error"] or not r["fails"]:
             continue
         try:
@@ -48,22 +50,25 @@ def _condense(results, counts, info):
                 lines = f.readlines()
         except OSError:
             lines = []
-        best = {}
+        prefix = os.path.basename(r["file"]).split("-")[0]
         for idx, pairs in r["fails"]:
             size = len(lines[idx - 1]) if 0 < idx <= len(lines) else 1 << 30
             for (p, name) in pairs:
                 if p == INFO:
                     info[name] += 1
-                    if name not in info.samples and 0 < idx <= len(lines) and len(lines[idx - 1]) < 1200:
+                    if name not in info.samples and size < 1200:
                         info.samples[name] = json.loads(lines[idx - 1])
                     continue
                 counts[name] += 1
-                if name not in best or size < best[name][0]:
-                    best[name] = (size, idx, p)
-        keep = collections.OrderedDict()
-        for name, (_, idx, p) in sorted(best.items()):
-            keep.setdefault(idx, []).append((p, name))
-        r["fails"] = list(keep.items())
+                key = (name, prefix)
+                if key not in best or size < best[key][0]:
+                    best[key] = (size, ri, idx, p)
+        r["fails"] = []
+    keep = {}
+    for (name, _), (_, ri, idx, p) in sorted(best.items()):
+        keep.setdefault(ri, collections.OrderedDict()).setdefault(idx, []).append((p, name))
+    for ri, d in keep.items():
+        results[ri]["fails"] = list(d.items())
 
 
 class _Info(collections.Counter):
